@@ -135,9 +135,9 @@ Definition vclose (D : nat) (a b : vec) : bool := alldims D (fun j => cclose (cn
 
 (* 109: the literal clause "the result does not depend on iteration order" on the float
    implementation: two map orders give the same deserved values (within the 1e-6 resolution of
-   the observation).  FALSE on the real plugin for a small fraction of inputs (known finding
-   C12/map-order-dependent-deserved, deviation <= 0.1 = minResource); law 108 is the version
-   with that tolerance. *)
+   the observation).  It was false on the real plugin (float64 sums accumulated in map order)
+   until /repo fix 7b69dc3 made the loop visit the queues in sorted order; it is evaluated
+   without sig or excuse.  Law 108 is the version with the 0.1 tolerance. *)
 Definition law_runs_identical (D : nat) (ab : list (obs * obs)) : bool :=
   forallb (fun p : obs * obs =>
     let (a, b) := p in
@@ -158,7 +158,8 @@ Definition law_capability (D : nat) (total : vec) (qs : list (vec * vec * vec)) 
       | _, _ => true
       end)) qs.
 
-(* 112: the EXCUSE of the known finding C12/map-order-dependent-deserved, and nothing more: two
+(* 112 (no longer emitted since fix 7b69dc3; law 109 is now required outright): the former excuse
+   of the finding C12/map-order-dependent-deserved, and nothing more: two
    map orders may give different deserved values only when the exact model classifies the case as
    not robust (some comparison of the loop within 1e-6 of its boundary, a cancellation after an
    inexact division, more than 30 rounds - there a last-bit difference can flip a decision) and
